@@ -2,7 +2,7 @@
 //! (`DynamicContainer`, `Installation`, `ArchiveManager`) and records what came back.
 //!
 //! usage: drv_storage --programs <file|-> --out <file|-> [--timeout SECS]
-//!        drv_storage --random N [--len L] --out <file> [--dump-programs <file>]
+//!        drv_storage --random N [--len L] --out <file> [--dump-programs <file> [--dump-only]]
 //!
 //! Program:
 //!   {"comp":"dyn"|"inst"|"arch", "mode":"none"|"zlib"|"lz4", "compress":bool,
@@ -546,6 +546,11 @@ fn main() {
                 d.ev(&prog);
             }
             programs.push(prog);
+        }
+        if has_flag(&args, "--dump-only") {
+            // generation only: the programs are executed by sharded runs of --programs
+            eprintln!("{}", json!({"generated": programs.len()}));
+            return;
         }
     }
     let timeout = std::time::Duration::from_secs(arg_u64(&args, "--timeout", 60));
